@@ -5,6 +5,7 @@ from harness import k_api, k_categorical, k_ordinal, k_quantiles, k_transform
 def obligations(tier):
     quick = tier == "quick"
     return [
+        k_api.obligation_qual(tier, {"C08"}, "O8.8 end to end on qualitative and ordinal features: completes, attributes coherent, partition well formed and covering, dropped features untouched"),
         k_api.obligation(tier, {"C08"}, "O8.6 end to end: every class completes or raises AssertionError; per-feature attributes coherent; values_orders a well-formed partition covering the training values; dropped features untouched",
                          ["BinaryCarver", "ContinuousCarver", "Discretizer", "QuantitativeDiscretizer", "ContinuousDiscretizer"], ns=[4] if quick else [4, 5], max_pats=6 if quick else 20),
         k_quantiles.obligation(tier, {"C08"}, "O8.1 find_quantiles/fit_feature: no internal error, unique strictly increasing leaders, inf sentinel", ["sorted", "free"]),
